@@ -7,36 +7,47 @@
 (* enumerations the complete block appears as the single token <<hi, -1>>.    *)
 EXTENDS Integers, Sequences, FiniteSets
 CONSTANTS His, Los, FLo, FHi      \* bucket keys, model low values (outside FLo..FHi), filler range
-VARIABLES mem, fill, last
+VARIABLES mem, fill, fill2, last
 R(n, args, r) == [n |-> n, a |-> args, r |-> r]
 SX == INSTANCE SequencesExt
 F == FHi - FLo + 1
+\* a second block G2Lo..G2Hi (everything between the first block and 65535), used by the random driver only, lets a bucket
+\* become full (65536 values) or all but full; its token in enumerations is <<hi, -2>>
+G2Lo == FHi + 1
+G2Hi == 65534
+F2 == G2Hi - G2Lo + 1
 Asc(S) == SX!SetToSortSeq(S, LAMBDA x, y : x < y)
-Card == Cardinality(mem) + F * Cardinality({h \in His : fill[h]})
+Card == Cardinality(mem) + F * Cardinality({h \in His : fill[h]}) + F2 * Cardinality({h \in His : fill2[h]})
 \* ascending enumeration: per bucket the lows below the filler block, the block token, the lows above
 \* (the low values present in bucket h: in the state graph a subset of Los, in traces of the random driver anything)
 LowsOf(h) == {m[2] : m \in {x \in mem : x[1] = h}}
 BucketSeq(h) == LET below == Asc({l \in LowsOf(h) : l < FLo})
-                    above == Asc({l \in LowsOf(h) : l > FHi})
+                    mid == Asc({l \in LowsOf(h) : l > FHi /\ l < G2Hi + 1})       \* (empty while the second block is present)
+                    above == Asc({l \in LowsOf(h) : l > G2Hi})
                 IN [i \in 1..Len(below) |-> <<h, below[i]>>] \o (IF fill[h] THEN << <<h, -1>> >> ELSE <<>>)
+                   \o [i \in 1..Len(mid) |-> <<h, mid[i]>>] \o (IF fill2[h] THEN << <<h, -2>> >> ELSE <<>>)
                    \o [i \in 1..Len(above) |-> <<h, above[i]>>]
 RECURSIVE Cat(_, _)
 Cat(hs, i) == IF i > Len(hs) THEN <<>> ELSE BucketSeq(hs[i]) \o Cat(hs, i + 1)
 Enum == Cat(Asc(His), 1)
 First(s, n) == SubSeq(s, 1, IF Len(s) < n THEN Len(s) ELSE n)
 \* the first two REAL values (Range stopped after two callbacks): a block token stands for FLo, FLo+1, ...
-Exp(tok) == IF tok[2] = -1 THEN << <<tok[1], FLo>>, <<tok[1], FLo + 1>> >> ELSE <<tok>>
+Exp(tok) == IF tok[2] = -1 THEN << <<tok[1], FLo>>, <<tok[1], FLo + 1>> >>
+            ELSE IF tok[2] = -2 THEN << <<tok[1], G2Lo>>, <<tok[1], G2Lo + 1>> >> ELSE <<tok>>
 First2 == LET e == First(Enum, 2) IN
           First(IF Len(e) = 0 THEN <<>> ELSE IF Len(e) = 1 THEN Exp(e[1]) ELSE Exp(e[1]) \o Exp(e[2]), 2)
 Reads == [len |-> Card, iter |-> Enum, range |-> Enum, all |-> Enum, range2 |-> First2,
           contains |-> [i \in 1..Len(Asc(His)) |-> [j \in 1..Len(Asc(Los)) |-> <<Asc(His)[i], Asc(Los)[j]>> \in mem]]]
 
-Init == mem = {} /\ fill = [h \in His |-> FALSE] /\ last = R("Init", <<>>, <<>>)
-Add(h, l) == mem' = mem \cup {<<h, l>>} /\ last' = R("Add", <<h, l>>, <<<<h, l>> \notin mem>>) /\ UNCHANGED fill
-Remove(h, l) == mem' = mem \ {<<h, l>>} /\ last' = R("Remove", <<h, l>>, <<<<h, l>> \in mem>>) /\ UNCHANGED fill
-Contains(h, l) == last' = R("Contains", <<h, l>>, <<<<h, l>> \in mem>>) /\ UNCHANGED <<mem, fill>>
+Init == mem = {} /\ fill = [h \in His |-> FALSE] /\ fill2 = [h \in His |-> FALSE] /\ last = R("Init", <<>>, <<>>)
+Add(h, l) == mem' = mem \cup {<<h, l>>} /\ last' = R("Add", <<h, l>>, <<<<h, l>> \notin mem>>) /\ UNCHANGED <<fill, fill2>>
+Remove(h, l) == mem' = mem \ {<<h, l>>} /\ last' = R("Remove", <<h, l>>, <<<<h, l>> \in mem>>) /\ UNCHANGED <<fill, fill2>>
+Contains(h, l) == last' = R("Contains", <<h, l>>, <<<<h, l>> \in mem>>) /\ UNCHANGED <<mem, fill, fill2>>
 \* r = number of Adds / Removes of the block that reported a membership change
-Prefill(h) == fill' = [fill EXCEPT ![h] = TRUE] /\ last' = R("Prefill", <<h>>, <<IF fill[h] THEN 0 ELSE F>>) /\ UNCHANGED mem
-Unfill(h) == fill' = [fill EXCEPT ![h] = FALSE] /\ last' = R("Unfill", <<h>>, <<IF fill[h] THEN F ELSE 0>>) /\ UNCHANGED mem
-vars == <<mem, fill, last>>
+Prefill(h) == fill' = [fill EXCEPT ![h] = TRUE] /\ last' = R("Prefill", <<h>>, <<IF fill[h] THEN 0 ELSE F>>) /\ UNCHANGED <<mem, fill2>>
+Unfill(h) == fill' = [fill EXCEPT ![h] = FALSE] /\ last' = R("Unfill", <<h>>, <<IF fill[h] THEN F ELSE 0>>) /\ UNCHANGED <<mem, fill2>>
+\* (driven only while no single value of the bucket lies inside the second block)
+Prefill2(h) == fill2' = [fill2 EXCEPT ![h] = TRUE] /\ last' = R("Prefill2", <<h>>, <<IF fill2[h] THEN 0 ELSE F2>>) /\ UNCHANGED <<mem, fill>>
+Unfill2(h) == fill2' = [fill2 EXCEPT ![h] = FALSE] /\ last' = R("Unfill2", <<h>>, <<IF fill2[h] THEN F2 ELSE 0>>) /\ UNCHANGED <<mem, fill>>
+vars == <<mem, fill, fill2, last>>
 =============================================================================
